@@ -49,6 +49,16 @@ def rows():
     return out
 
 
+def rows_with_option():
+    """Every other row with the ESAA option switched on: the option only concerns the boys' 800 m, so the expected
+    points are those of the plain row."""
+    out = []
+    for r in rows():
+        if not r[7] and not (r[0] == 'M' and r[1] == '800'):
+            out.append(r[:7] + ('noop',))
+    return out
+
+
 _factors = None
 
 
